@@ -22,4 +22,8 @@ theorem nonprefixable_slice_00_0 : nonprefixableSliceOk 0 0 = true := by decide 
 theorem nonprefixable_slice_00_1 : nonprefixableSliceOk 0 1 = true := by decide +kernel
 theorem nonprefixable_slice_00_2 : nonprefixableSliceOk 0 2 = true := by decide +kernel
 
+/-- the body of `generate_name_alternatives`' outer loop, for the table keys number i ≡ 0 (mod 16),
+    started in the state the real generator had there, appends exactly what the real one appended -/
+theorem gen_chunk_00 : genChunkOk 0 = true := by decide +kernel
+
 end Unyt.C14
